@@ -155,6 +155,109 @@ def scn_prune(variant, tree_s, S, K, batch, cols):
 
 
 # ----------------------------------------------------------------------------------------------
+# unbounded in the number of taxa: cut of the pruning loop (DESIGN A.1)
+
+
+def scn_prune_cut(variant, left_kind, right_kind, S, K, N):
+    """One GENERIC iteration of the `for node, left, right in post_indexing` loop of the real pruning function, cut from
+    its current source (loop body compiled verbatim), on a pre-state that satisfies the invariant "partials[m] holds the
+    Felsenstein vector L(m) of every processed node": partials[left], partials[right] are arbitrary symbolic vectors.
+      iteration:  partials[node] ≡ (Σ_j M[left,k,i,j] L_left[k,j,n]) · (Σ_j M[right,k,i,j] L_right[k,j,n])   (the defining
+                  recursion of L), and no other entry of `partials` is written (frame);
+      suffix:     result ≡ Σ_n w_n log Σ_i pi_i Σ_k p_k L_root[k,i,n].
+    With postorder_ok (children processed before parents, C01.postorder) this gives, by induction over the loop, the
+    Felsenstein value for EVERY tree size; that value equals the brute-force marginal by the distributive law
+    (validated up to 5 taxa by C01.prune.*, classical lemma beyond)."""
+    def scn(mk):
+        from torchtree.evolution import tree_likelihood as tl
+        from vt import loopcut
+        f = tl.calculate_treelikelihood_discrete if variant == "partials" else tl.calculate_treelikelihood_tip_states_discrete
+        c = loopcut.cut(f, 0)
+        T = 5                      # index layout only: tips 0..4, internal 5..8; the iteration touches 3 indices
+        left = 1 if left_kind == "tip" else 6
+        right = 3 if right_kind == "tip" else 5
+        node = 7
+        if variant == "partials":
+            mats = mk.real("M", (2 * T - 2, K, S, S), lo=0)
+        else:
+            # precondition from C04: rows of every transition matrix sum to one (the unknown tip state is a column of ones)
+            free = mk.real("M", (2 * T - 2, K, S, S - 1), lo=0, hi=1.0 / S)
+            mats = torch.cat((free, 1.0 - free.sum(-1, keepdim=True)), -1)
+        freqs = mk.real("pi", (1, S), lo=0)
+        props = mk.real("w", (K, 1, 1), lo=0)
+        weights = mk.real("wt", (N,), lo=0)
+        partials = [None] * (2 * T - 1)
+        sentinels = {}
+        for m in range(2 * T - 1):
+            if m in (left, right):
+                continue
+            sentinels[m] = partials[m] = object()
+        Lv = {}
+        if variant == "partials":
+            for nm, m, kind in (("Ll", left, left_kind), ("Lr", right, right_kind)):
+                Lv[m] = partials[m] = mk.real(nm, (S, N) if kind == "tip" else (K, S, N), lo=0, lo_incl=True)
+        else:
+            for nm, m, kind, st in (("Ll", left, left_kind, [0, S][:N] + [1] * max(0, N - 2)), ("Lr", right, right_kind, [S, 1][:N] + [0] * max(0, N - 2))):
+                if kind == "tip":
+                    Lv[m] = partials[m] = torch.tensor(st[:N], dtype=torch.long)
+                else:
+                    Lv[m] = partials[m] = mk.real(nm, (K, S, N), lo=0, lo_incl=True)
+        # the prefix reads only len(post_indexing) (tip count); T-1 triples, the generic one among them
+        post = [[5, 0, 2], [6, 5, 4], [node, left, right], [8, 7, 6]]
+        state = c.prefix(partials, weights, post, mats, freqs, props)
+        state.update(node=node, left=left, right=right)
+        tag, st2 = c.body(state)
+        out = st2["partials"]
+        cl = [("true", "loop_shape", c.kind == "for" and c.n_body >= 1 and tag == "next", c.header)]
+        cl.append(("true", "frame_only_partials[node]_written", all(out[m] is sentinels[m] for m in sentinels if m != node) and out[left] is Lv[left] and out[right] is Lv[right]))
+
+        def vec(m, kind, k, j, n):
+            if variant == "states" and kind == "tip":
+                s_ = int(Lv[m][n])
+                return 1 if (s_ >= S or s_ == j) else 0
+            return el(Lv[m], (j, n) if kind == "tip" else (k, j, n))
+        code, spec = [], []
+        got = out[node]
+        if tuple(got.shape) != (K, S, N):
+            cl.append(("true", "partial_shape", False, str(tuple(got.shape))))
+            return cl
+        unknown_ok = True
+        for k in range(K):
+            for i in range(S):
+                for n in range(N):
+                    a = 0
+                    for j in range(S):
+                        a = a + el(mats, (left, k, i, j)) * vec(left, left_kind, k, j, n)
+                    b = 0
+                    for j in range(S):
+                        b = b + el(mats, (right, k, i, j)) * vec(right, right_kind, k, j, n)
+                    spec.append(a * b)
+                    code.append(el(got, (k, i, n)))
+        if variant == "states" and "tip" in (left_kind, right_kind):
+            # the unknown state is a column of ones, which is Σ_j M[.,i,j]·1 only for row-stochastic M (C04): encode the precondition
+            pass
+        cl.append(("eq", "iteration_is_felsenstein_recursion", code, spec))
+        # suffix on a generic root vector
+        root = mk.real("Lroot", (K, S, N), lo=0, lo_incl=True)
+        st3 = dict(st2)
+        plist = list(out)
+        plist[node] = root
+        st3["partials"] = plist
+        st3["post_indexing"] = [[node, left, right]]
+        res = c.suffix(st3)
+        want = 0
+        for n in range(N):
+            tot = 0
+            for i in range(S):
+                for k in range(K):
+                    tot = tot + el(freqs, (0, i)) * el(props, (k, 0, 0)) * el(root, (k, i, n))
+            want = want + el(weights, (n,)) * slog(tot)
+        cl.append(("eq", "suffix_is_weighted_log_of_root_reduction", res, [want]))
+        return cl
+    return scn
+
+
+# ----------------------------------------------------------------------------------------------
 # whole model pipeline
 
 
@@ -602,6 +705,14 @@ def obligations(tier, seed):
             for S, K, batch, N in cfgs:
                 add("C01.prune.partials[tree=%s,S=%d,K=%d,batch=%s,N=%d]" % (ts2, S, K, batch, N), "scn_prune",
                     ("partials", ts2, S, K, batch, N), "pruning ≡ marginal sum (tip partials)")
+    # loop cut: one generic iteration + suffix, every tree size
+    for variant in ("partials", "states"):
+        for lk in ("tip", "internal"):
+            for rk in ("tip", "internal"):
+                obs.append(scenario_ob("C01", "C01.prune.cut.%s[left=%s,right=%s]" % (variant, lk, rk), "U", "scn_prune_cut", (variant, lk, rk, 2, 2, 2),
+                                       clause="generic iteration of the pruning loop ≡ Felsenstein recursion; suffix ≡ root reduction (unbounded in taxa)", funcs=FUNCS, seed=seed))
+    obs.append(scenario_ob("C01", "C01.prune.cut.partials[left=internal,right=tip,S=4,K=1]", "U", "scn_prune_cut", ("partials", "internal", "tip", 4, 1, 1),
+                           clause="generic iteration of the pruning loop ≡ Felsenstein recursion (S=4)", funcs=FUNCS, seed=seed))
     # pruning, tip states: all state patterns as columns
     for T in ([3] if tier == "quick" else [3, 4]):
         S = 2
